@@ -12,11 +12,17 @@
   * The statistics (`route_stats`) and the table totals are PROVED equal to the recount in every
     reachable state, unconditionally (`stats_eq_recount`, `state_eq_recount`), and no arithmetic check
     fires (`no_panic`).
-  * The prefix-limit counter is NOT always equal to the recount in the model, because the model mirrors
-    the code including an open finding: a restarted session of a peer starts with a fresh counter while
-    the stale paths it inherits are in the RIB.  So the full-strength statement `C15_full` is REFUTED
-    (`not_C15_full`, witness `C15.wCase`), and the statements about the limit counter are proved for the
-    histories described by `Case.PlainLimits` (`*_partial`).
+  * The prefix-limit counter is per session (per Source).  For every history the codecs accept
+    (`Case.PurgeCtrOk`) of fewer than 2^63 steps (`Case.Short`) and ANY number of sessions per peer it
+    is PROVED to be at least the recount of the session's own paths (`sessCount`), below 2^63, and
+    equal to that recount as long as nothing took paths of the session away behind its back
+    (`limit_counter_ge_recount`, `no_underflow`, `limit_counter_eq_recount`), and a session never holds
+    more than `max` prefixes without the limit being signalled (`limit_enforced_session`).
+  * Per peer ADDRESS the limit is NOT enforced by the model, which mirrors the code: the stale paths a
+    restarted session inherits are not counted against its limit.  So the full-strength statement
+    `C15_full` is REFUTED (`not_C15_full`, witness `C15.wCase`); with one session per limited peer
+    (`Case.OneSession`) the per-address clause and the whole reference checker are proved
+    (`limit_enforced_partial`, `check_run_ok_partial`).
 -/
 import Rbgp.Rib.ProofsC15
 import Rbgp.Rib.StepAll
@@ -25,29 +31,32 @@ open Rbgp.Rib
 
 /-! ## 0. The reference checker -/
 
-/-- **C15, partial master theorem.**  For every well-formed case whose history is outside the open
-    finding (`Case.PlainLimits`: a limited session is the only source of its peer address, a stale-path
-    purge of such a peer is handed that session's counter or none and never another limited peer's
-    counter, fewer than 2^63 steps) and both profiles, the C15 reference checker accepts the
-    observation of the model's run. -/
-theorem check_run_ok_partial (p : Profile) (c : Case) (g : Nat → Fam) (h : c.WFWith g) (hp : c.PlainLimits) :
-    SpecC15.check c (observe p c) = .ok :=
-  C15.check_run_ok_partial allSound p h hp
+/-- **C15, partial master theorem.**  For every well-formed case the codecs accept (`PurgeCtrOk`) with
+    fewer than 2^63 steps and one session per limited peer, and both profiles, the C15 reference
+    checker accepts the observation of the model's run. -/
+theorem check_run_ok_partial (p : Profile) (c : Case) (g : Nat → Fam) (h : c.WFWith g) (hpc : c.PurgeCtrOk)
+    (hsh : c.Short) (hone : c.OneSession) : SpecC15.check c (observe p c) = .ok :=
+  C15.check_run_ok_partial allSound p h hpc hsh hone
 
 /-- the full-strength statement: the checker accepts the run of EVERY well-formed case -/
 def C15_full : Prop := ∀ (p : Profile) (c : Case), c.WF → SpecC15.check c (observe p c) = .ok
 
-/-- **The full-strength statement is false for the model** (which mirrors the code): open finding
-    "inherited stale paths". -/
+/-- **The full-strength statement is false for the model** (which mirrors the code): residual of the
+    finding "inherited stale paths". -/
 theorem not_C15_full : ¬ C15_full := C15.not_C15_full
 
-/-- the witness: a session of peer 1 announces a prefix and goes down (its path is kept, stale); a new
-    session of the same peer re-announces the prefix.  The new session's counter stays 0 although the
-    peer has a prefix in the RIB: step 2 fails the clause "limit counter = recount". -/
+/-- the witness: a session of peer 1 (limit: one prefix) announces a prefix and goes down (its path is
+    kept, stale); a new session of the same peer announces another prefix.  The peer now has two
+    prefixes in the RIB and no limit was signalled: step 2 fails the clause "limit enforced or
+    signalled".  The case is accepted by the codecs and short; it violates `OneSession` only. -/
 theorem inherited_stale_paths_witness :
-    C15.wCase.WF ∧ SpecC15.check C15.wCase (observe .debug C15.wCase) =
-      .fail 2 "limit-counter-ne-recount class=inherited-stale-paths" :=
-  ⟨C15.wCase_wf, C15.wCase_verdict⟩
+    C15.wCase.WF ∧ C15.wCase.PurgeCtrOk ∧ C15.wCase.Short ∧
+    SpecC15.check C15.wCase (observe .debug C15.wCase) =
+      .fail 2 "limit-exceeded-not-signalled class=inherited-stale-paths" := by
+  refine ⟨C15.wCase_wf, ?_, by decide, C15.wCase_verdict⟩
+  intro op hop
+  simp only [C15.wCase, List.mem_cons, List.not_mem_nil, or_false] at hop
+  rcases hop with rfl | rfl | rfl <;> trivial
 
 /-! ## Steps of a run -/
 
@@ -65,21 +74,16 @@ theorem runStepAt_lt {p : Profile} {c : Case} {i : Nat} {t t' : Table} {op : Op}
   · exact h
   · rw [List.getElem?_eq_none h] at this; cases this
 
-/-- what the proofs know about step `i` of a run outside the open finding -/
-theorem runStepAt_facts {p : Profile} {c : Case} {g : Nat → Fam} (h : c.WFWith g) (hp : c.PlainLimits)
-    {i : Nat} {t t' : Table} {op : Op} {r : Res} (hs : RunStepAt p c i t op t' r) :
+/-- what the proofs know about step `i` of a run: the step equation, the invariant of reachable tables
+    and the invariant of the counters (`C15.GInv`) before and after -/
+theorem runStepAt_facts {p : Profile} {c : Case} {g : Nat → Fam} (h : c.WFWith g) (hpc : c.PurgeCtrOk)
+    (hsh : c.Short) {i : Nat} {t t' : Table} {op : Op} {r : Res} (hs : RunStepAt p c i t op t' r) :
     Inv c g t ∧ Inv c g t' ∧ t.step p op = .ok (t', r) ∧
-    ∃ st, C15.SInv c t st i ∧
-      C15.SInv c t' { live := SpecC15.liveStep c st op, dead := SpecC15.deadStep c st op,
-                      prev := (stepObs c (t', r)).fams } (i + 1) ∧
-      C15.DeadProv c (SpecC15.deadStep c st op) (c.ops.take (i + 1)) := by
+    C15.GInv c t i (c.ops.take i) ∧ C15.GInv c t' (i + 1) (c.ops.take (i + 1)) := by
   obtain ⟨h1, h2, h3⟩ := hs
-  obtain ⟨e1, e2, e3, st, e4, _, e6, e7⟩ := C15.run_at allSound p hp c.ops {} {} 0 [] h (fun _ ho => ho)
-    (by simpa using hp.short) (inv_empty c g) (C15.sinv_empty c) (fun _ _ hm => by simp at hm) i t t' op r h1 h2 h3
-  refine ⟨e1, e2, e3, st, ?_, ?_, ?_⟩
-  · simpa using e4
-  · simpa using e6
-  · simpa using e7
+  obtain ⟨e1, e2, e3, e4, e5⟩ := C15.run_at allSound p c.ops {} 0 [] h hpc
+    (by simpa using (show c.ops.length < SpecC15.HALF from hsh)) (inv_empty c g) (C15.ginv_empty c) i t t' op r h1 h2 h3
+  exact ⟨e1, e2, e3, by simpa using e4, by simpa using e5⟩
 
 /-! ## 1. Statistics and table totals equal the recount (unconditionally) -/
 
@@ -127,56 +131,91 @@ theorem state_eq_recount (p : Profile) (c : Case) (g : Nat → Fam) (h : c.WFWit
 theorem no_panic (p : Profile) (c : Case) (g : Nat → Fam) (h : c.WFWith g) : (run p c).2 = false :=
   runFrom_no_panic allSound p c.ops h {} (inv_empty c g)
 
-/-- **no_underflow**: outside the open finding, after every step the recounts (hence the statistics)
-    and the limit counters of all limited sessions are below 2^63: no counter has wrapped. -/
-theorem no_underflow {p : Profile} {c : Case} {g : Nat → Fam} (h : c.WFWith g) (hp : c.PlainLimits)
-    {i : Nat} {t t' : Table} {op : Op} {r : Res} (hs : RunStepAt p c i t op t' r) :
+/-- **no_underflow**: after every step the recounts (hence the statistics) and the limit counters of
+    all limited sessions are below 2^63: no counter has wrapped. -/
+theorem no_underflow {p : Profile} {c : Case} {g : Nat → Fam} (h : c.WFWith g) (hpc : c.PurgeCtrOk)
+    (hsh : c.Short) {i : Nat} {t t' : Table} {op : Op} {r : Res} (hs : RunStepAt p c i t op t' r) :
     (∀ addr f, (statsGet t' (addr, f)).1 < SpecC15.HALF ∧ (statsGet t' (addr, f)).2 < SpecC15.HALF) ∧
     (∀ s : Src, s.WF c → s.lim.isSome = true → ∀ f, t'.ctr (s.id, f) < SpecC15.HALF) := by
   have hlt := runStepAt_lt hs
-  have hsh := hp.short
-  obtain ⟨_, hinv', _, st, _, hs', _⟩ := runStepAt_facts h hp hs
+  have hsh' : c.ops.length < SpecC15.HALF := hsh
+  obtain ⟨_, hinv', _, _, hg'⟩ := runStepAt_facts h hpc hsh hs
   constructor
   · intro addr f
     rw [hinv'.stats.get addr f]
-    have := hs'.bound addr f
+    have := hg'.bound addr f
     simp only []
     omega
   · intro s hw hl f
-    have := (hs'.ctr s hw hl f).2
+    have := (hg'.ge s hw hl f).2
     omega
 
-/-! ## 3. The limit counter (outside the open finding) -/
+/-! ## 3. The limit counter of a session (any number of sessions per peer) -/
 
-/-- **limit_counter_ge_recount_partial**: after every step the counter of a limited session is at
-    least the number of prefixes with a path of its peer. -/
-theorem limit_counter_ge_recount_partial {p : Profile} {c : Case} {g : Nat → Fam} (h : c.WFWith g)
-    (hp : c.PlainLimits) {i : Nat} {t t' : Table} {op : Op} {r : Res} (hs : RunStepAt p c i t op t' r)
-    (s : Src) (hw : s.WF c) (hl : s.lim.isSome = true) (f : Fam) :
-    recvCount s.addr (t'.rib f) ≤ t'.ctr (s.id, f) := by
-  obtain ⟨_, _, _, st, _, hs', _⟩ := runStepAt_facts h hp hs
-  exact (hs'.ctr s hw hl f).1
+/-- **limit_counter_ge_recount**: after every step the counter of a limited session is at least the
+    number of prefixes with a path of that session's Source. -/
+theorem limit_counter_ge_recount {p : Profile} {c : Case} {g : Nat → Fam} (h : c.WFWith g)
+    (hpc : c.PurgeCtrOk) (hsh : c.Short) {i : Nat} {t t' : Table} {op : Op} {r : Res}
+    (hs : RunStepAt p c i t op t' r) (s : Src) (hw : s.WF c) (hl : s.lim.isSome = true) (f : Fam) :
+    sessCount s.id (t'.rib f) ≤ t'.ctr (s.id, f) := by
+  obtain ⟨_, _, _, _, hg'⟩ := runStepAt_facts h hpc hsh hs
+  exact (hg'.ge s hw hl f).1
 
-/-- **limit_counter_eq_recount_partial**: as long as the peer of a limited session has not been
-    dropped or re-marked stale and no counter-less purge of its stale paths was requested (the
-    operations after which the daemon no longer uses the session's counter), the counter EQUALS the
-    number of prefixes with a path of the peer. -/
-theorem limit_counter_eq_recount_partial {p : Profile} {c : Case} {g : Nat → Fam} (h : c.WFWith g)
-    (hp : c.PlainLimits) {i : Nat} {t t' : Table} {op : Op} {r : Res} (hs : RunStepAt p c i t op t' r)
-    (s : Src) (hw : s.WF c) (hl : s.lim.isSome = true) (f : Fam)
-    (hno : ∀ o ∈ c.ops.take (i + 1), o.endsSessions c ≠ some (s.addr, f)) :
-    t'.ctr (s.id, f) = recvCount s.addr (t'.rib f) := by
-  obtain ⟨_, _, _, st, _, hs', hd⟩ := runStepAt_facts h hp hs
-  apply hs'.eq s hw hl f
-  intro hm
-  obtain ⟨o, ho, a, h1, h2⟩ := hd s.id f hm
-  rw [C15.addrOf_wf hw, Option.some.injEq] at h2
-  subst h2
-  exact hno o ho h1
+/-- **limit_counter_eq_recount**: the counter of a limited session EQUALS the number of prefixes with
+    a path of its Source, as long as no operation so far took paths of the session away without
+    settling its counter (`Op.disturbs`: an announcement / withdrawal by another session of the same
+    peer in the family, a drop of the peer, a counter-less purge of its stale paths). -/
+theorem limit_counter_eq_recount {p : Profile} {c : Case} {g : Nat → Fam} (h : c.WFWith g)
+    (hpc : c.PurgeCtrOk) (hsh : c.Short) {i : Nat} {t t' : Table} {op : Op} {r : Res}
+    (hs : RunStepAt p c i t op t' r) (s : Src) (hw : s.WF c) (hl : s.lim.isSome = true) (f : Fam)
+    (hno : ∀ o ∈ c.ops.take (i + 1), o.disturbs s f = false) :
+    t'.ctr (s.id, f) = sessCount s.id (t'.rib f) := by
+  obtain ⟨_, _, _, _, hg'⟩ := runStepAt_facts h hpc hsh hs
+  exact hg'.eq s hw hl f hno
 
-/-- **limit_enforced_partial**: an `insert` of a limited session that brings the peer a NEW prefix
-    and is not answered with `PrefixLimitExceeded` leaves the peer with at most `max` prefixes. -/
-theorem limit_enforced_partial {p : Profile} {c : Case} {g : Nat → Fam} (h : c.WFWith g) (hp : c.PlainLimits)
+/-- **limit_enforced_session**: an `insert` of a limited session that brings the SESSION a new prefix
+    and is not answered with `PrefixLimitExceeded` leaves the session with at most `max` prefixes. -/
+theorem limit_enforced_session {p : Profile} {c : Case} {g : Nat → Fam} (h : c.WFWith g) (hpc : c.PurgeCtrOk)
+    (hsh : c.Short) {i : Nat} {t t' : Table} {r : Res} {src : Src} {fam : Fam} {net : Net} {rpid : Nat}
+    {nh : Option Nat} {attr : Attrs} {filtered nhInv : Bool}
+    (hs : RunStepAt p c i t (.insert src fam net rpid nh attr filtered nhInv) t' r)
+    {max : Nat} (hmax : src.lim = some max) (hr : r ≠ .limit)
+    (hnew : ((t.entries fam net).any fun e => e.src.id == src.id) = false) :
+    sessCount src.id (t'.rib fam) ≤ max := by
+  have hop : Op.insert src fam net rpid nh attr filtered nhInv ∈ c.ops := List.mem_of_getElem? hs.2.1
+  have hwf := h _ hop
+  obtain ⟨hinv, hinv', hstep, hg, _⟩ := runStepAt_facts h hpc hsh hs
+  obtain ⟨e1, _, e4, _⟩ := (C15.ctrFacts_step p hinv hinv' _ hstep).spec.2 hr
+  rw [hnew] at e1
+  have hc := (hg.ge src hwf.1 (by rw [hmax]; rfl) fam).1
+  have := e4 hnew max hmax
+  simp only [Bool.not_false, Bool.toNat_true] at e1
+  omega
+
+/-- **limit_signalled**: `PrefixLimitExceeded` is answered only to an announcement that would bring the
+    SESSION a new prefix while its counter has reached the maximum, and it changes nothing (holds for
+    every well-formed case). -/
+theorem limit_signalled {c : Case} {g : Nat → Fam} (p : Profile) {t t' : Table} (hinv : Inv c g t) (hinv' : Inv c g t')
+    {src : Src} {fam : Fam} {net : Net} {rpid : Nat} {nh : Option Nat} {attr : Attrs} {filtered nhInv : Bool}
+    (hstep : t.step p (.insert src fam net rpid nh attr filtered nhInv) = .ok (t', .limit)) :
+    ((t.entries fam net).any fun e => e.src.id == src.id) = false ∧
+    (∃ max, src.lim = some max ∧ max ≤ t.ctr (src.id, fam)) ∧ t' = t :=
+  (C15.ctrFacts_step p hinv hinv' _ hstep).spec.1 rfl
+
+/-! ## 4. The limit per peer address (one session per limited peer) -/
+
+/-- with one session per limited peer, the session's recount is the peer's -/
+theorem sessCount_eq_recvCount (p : Profile) (c : Case) (g : Nat → Fam) (h : c.WFWith g) (hone : c.OneSession) :
+    ∀ tr ∈ (run p c).1, ∀ s : Src, s.WF c → s.lim.isSome = true → ∀ f,
+      sessCount s.id (tr.1.rib f) = recvCount s.addr (tr.1.rib f) := by
+  intro tr htr s hw hl f
+  exact C15.sess_eq_recv hone ((runFrom_inv allSound p c.ops h {} (inv_empty c g) tr htr).rib f) hw hl
+
+/-- **limit_enforced_partial**: with one session per limited peer, an `insert` that brings the PEER a
+    new prefix and is not answered with `PrefixLimitExceeded` leaves the peer with at most `max`
+    prefixes. -/
+theorem limit_enforced_partial {p : Profile} {c : Case} {g : Nat → Fam} (h : c.WFWith g) (hpc : c.PurgeCtrOk)
+    (hsh : c.Short) (hone : c.OneSession)
     {i : Nat} {t t' : Table} {r : Res} {src : Src} {fam : Fam} {net : Net} {rpid : Nat} {nh : Option Nat}
     {attr : Attrs} {filtered nhInv : Bool}
     (hs : RunStepAt p c i t (.insert src fam net rpid nh attr filtered nhInv) t' r)
@@ -185,24 +224,16 @@ theorem limit_enforced_partial {p : Profile} {c : Case} {g : Nat → Fam} (h : c
     recvCount src.addr (t'.rib fam) ≤ max := by
   have hop : Op.insert src fam net rpid nh attr filtered nhInv ∈ c.ops := List.mem_of_getElem? hs.2.1
   have hwf := h _ hop
-  obtain ⟨hinv, hinv', hstep, st, hs0, _, _⟩ := runStepAt_facts h hp hs
-  obtain ⟨e1, _, _, e4⟩ := (C15.ctrFacts_step p hinv hinv' _ hstep).spec.2 hr
-  rw [hnew] at e1 e4
-  have hc := (hs0.ctr src hwf.1 (by rw [hmax]; rfl) fam).1
-  have := e4 rfl max hmax
-  simp only [Bool.not_false, Bool.toNat_true] at e1
-  omega
-
-/-- **limit_signalled**: `PrefixLimitExceeded` is answered only to an announcement that would bring the
-    peer a new prefix while the session's counter has reached the maximum, and it changes nothing
-    (holds for every well-formed case). -/
-theorem limit_signalled {c : Case} {g : Nat → Fam} (p : Profile) {t t' : Table} (hinv : Inv c g t) (hinv' : Inv c g t')
-    {src : Src} {fam : Fam} {net : Net} {rpid : Nat} {nh : Option Nat} {attr : Attrs} {filtered nhInv : Bool}
-    (hstep : t.step p (.insert src fam net rpid nh attr filtered nhInv) = .ok (t', .limit)) :
-    (t.entries fam net).any (sameAddr src.addr) = false ∧
-    (∃ max, src.lim = some max ∧ max ≤ t.ctr (src.id, fam)) ∧ t' = t := by
-  obtain ⟨e1, e2, e3⟩ := (C15.ctrFacts_step p hinv hinv' _ hstep).spec.1 rfl
-  exact ⟨by simpa using e1, e2, e3⟩
+  obtain ⟨hinv, hinv', _, _, _⟩ := runStepAt_facts h hpc hsh hs
+  have hl : src.lim.isSome = true := by rw [hmax]; rfl
+  have hhas : ((t.entries fam net).any fun e => e.src.id == src.id) = false := by
+    rw [List.any_eq_false] at hnew ⊢
+    intro x hx hq
+    apply hnew x hx
+    have hxs : x.src = src := C15.src_eq_of_id (C15.entries_wf hinv hx) hwf.1 (by simpa using hq)
+    simp [sameAddr, hxs]
+  rw [← C15.sess_eq_recv hone (hinv'.rib fam) hwf.1 hl]
+  exact limit_enforced_session h hpc hsh hs hmax hr hhas
 
 /-! ## Non-vacuity -/
 
@@ -239,29 +270,20 @@ theorem exCase_wf : exCase.WFWith (fun _ => .v4) := by
   · exact ⟨rfl, rfl⟩
   · trivial
 
-theorem exCase_plain : exCase.PlainLimits where
-  oneSession := by decide
-  purgeCtr := by
-    intro op hop s hs hl
-    simp only [exCase, List.mem_cons, List.not_mem_nil, or_false] at hop hs
-    rcases hop with rfl | rfl | rfl | rfl | rfl | rfl <;> try trivial
-    rcases hs with rfl | rfl
-    · exact fun _ => Or.inr rfl
-    · exact absurd hl (by decide)
-  ctrPeer := by
-    intro op hop i s hi hl
-    simp only [exCase, List.mem_cons, List.not_mem_nil, or_false] at hop
-    rcases hop with rfl | rfl | rfl | rfl | rfl | rfl <;> try trivial
-    intro hc
-    cases hc
-    simp only [exCase, List.getElem?_cons_zero, Option.some.injEq] at hi
-    subst hi
-    rfl
-  short := by decide
+theorem exCase_purge : exCase.PurgeCtrOk := by
+  intro op hop
+  simp only [exCase, List.mem_cons, List.not_mem_nil, or_false] at hop
+  rcases hop with rfl | rfl | rfl | rfl | rfl | rfl <;> try trivial
+  intro i hi
+  cases hi
+  exact ⟨exS0, rfl, rfl, by decide⟩
+
+theorem exCase_short : exCase.Short := by decide
+theorem exCase_one : exCase.OneSession := by decide
 
 /-- the hypotheses of `check_run_ok_partial` are satisfiable -/
 example : SpecC15.check exCase (observe .debug exCase) = .ok :=
-  check_run_ok_partial .debug exCase _ exCase_wf exCase_plain
+  check_run_ok_partial .debug exCase _ exCase_wf exCase_purge exCase_short exCase_one
 
 /-- ... and the checker's verdict on the example, evaluated -/
 example : SpecC15.check exCase (observe .release exCase) = .ok := by decide
@@ -276,27 +298,29 @@ def isLimit : Res → Bool
 def exState (i : Nat) : Table := (states .debug exCase)[i]?.getD {}
 def exRes (i : Nat) : Res := ((run .debug exCase).1[i]?.map (·.2)).getD .unit
 
-/-- step 0 brings the limited peer a new prefix and is accepted: `limit_enforced_partial` applies;
-    afterwards the counter is 1 = the recount (`limit_counter_eq_recount_partial` applies: nothing has
-    ended the session) -/
+/-- step 0 brings the limited session (and its peer) a new prefix and is accepted:
+    `limit_enforced_session` / `limit_enforced_partial` apply; afterwards the counter is 1 = the recount
+    (`limit_counter_eq_recount` applies: nothing has disturbed the session) -/
 example : RunStepAt .debug exCase 0 (exState 0) (.insert exS0 .v4 exN1 0 (some 1) exAttr false false)
       (exState 1) (exRes 0) ∧
-    exS0.lim = some 1 ∧ exRes 0 ≠ .limit ∧ ((exState 0).entries .v4 exN1).any (sameAddr exS0.addr) = false ∧
-    (exState 1).ctr (0, .v4) = 1 ∧ recvCount 1 ((exState 1).rib .v4) = 1 ∧
-    (∀ o ∈ exCase.ops.take 1, o.endsSessions exCase ≠ some (exS0.addr, .v4)) :=
+    exS0.lim = some 1 ∧ exRes 0 ≠ .limit ∧
+    (((exState 0).entries .v4 exN1).any fun e => e.src.id == exS0.id) = false ∧
+    ((exState 0).entries .v4 exN1).any (sameAddr exS0.addr) = false ∧
+    (exState 1).ctr (0, .v4) = 1 ∧ sessCount 0 ((exState 1).rib .v4) = 1 ∧
+    (∀ o ∈ exCase.ops.take 1, o.disturbs exS0 .v4 = false) :=
   ⟨⟨rfl, rfl, rfl⟩, rfl, fun h => absurd (congrArg isLimit h) (by decide), by decide, by decide, by decide,
-    by decide⟩
+    by decide, by decide⟩
 
 /-- step 1 is answered with `PrefixLimitExceeded` (`limit_signalled` applies) -/
 example : (exState 1).step .debug (.insert exS0 .v4 exN2 0 (some 1) exAttr false false) =
     .ok (exState 2, .limit) := rfl
 
-/-- after step 3 (the purge that is handed the session's counter) nothing has ended the session of the
-    limited peer: `limit_counter_eq_recount_partial` still applies; step 5 ends the sessions of the
-    other peer only -/
+/-- up to the end of the example nothing disturbs the limited session (the purge is handed its counter,
+    the withdrawal is its own, the drop is of the other peer): `limit_counter_eq_recount` applies at
+    every step -/
 example : RunStepAt .debug exCase 5 (exState 5) (.drop 2 .v4) (exState 6) (exRes 5) ∧
-    (∀ o ∈ exCase.ops.take 6, o.endsSessions exCase ≠ some (exS0.addr, .v4)) ∧
-    (.drop 2 .v4 : Op).endsSessions exCase = some (2, .v4) :=
+    (∀ o ∈ exCase.ops.take 6, o.disturbs exS0 .v4 = false) ∧
+    (.drop 2 .v4 : Op).disturbs exS1 .v4 = true :=
   ⟨⟨rfl, rfl, rfl⟩, by decide, rfl⟩
 
 /-- `stats_eq_recount` / `state_eq_recount` speak about states with paths: after step 2 the table has
@@ -304,6 +328,30 @@ example : RunStepAt .debug exCase 5 (exState 5) (.drop 2 .v4) (exState 6) (exRes
 example : ∃ tr ∈ (run .debug exCase).1, (tr.1.rib .v4).state = (1, 2, 1) ∧
     statsGet tr.1 (1, .v4) = (1, 1) ∧ statsGet tr.1 (2, .v4) = (1, 0) :=
   ⟨(exState 3, exRes 2), List.mem_of_getElem? (i := 2) rfl, by decide, by decide, by decide⟩
+
+/-- the statements of section 3 do not need `OneSession`: two limited sessions of the same peer, one
+    per family; neither disturbs the other -/
+def exY0 : Src := { id := 0, addr := 1, rid := 1, role := .ebgp, lim := some 2 }
+def exY1 : Src := { id := 1, addr := 1, rid := 1, role := .ebgp, lim := some 2 }
+def exTwo : Case :=
+  { srcs := [exY0, exY1], attrs := [exAttr],
+    ops := [ .insert exY0 .v4 exN1 0 (some 1) exAttr false false,
+             .insert exY1 .ev exN1 0 (some 1) exAttr false false,
+             .insert exY0 .v4 exN2 0 (some 1) exAttr false false ] }
+
+example : exTwo.WFWith (fun i => if i = 0 then .v4 else .ev) ∧ exTwo.PurgeCtrOk ∧ exTwo.Short ∧ ¬ exTwo.OneSession ∧
+    (∀ o ∈ exTwo.ops.take 3, o.disturbs exY0 .v4 = false) ∧
+    (∀ o ∈ exTwo.ops.take 3, o.disturbs exY1 .ev = false) := by
+  refine ⟨?_, ?_, by decide, by decide, by decide, by decide⟩
+  · intro op hop
+    simp only [exTwo, List.mem_cons, List.not_mem_nil, or_false] at hop
+    rcases hop with rfl | rfl | rfl
+    · exact ⟨rfl, rfl, exAttr_wf⟩
+    · exact ⟨rfl, rfl, exAttr_wf⟩
+    · exact ⟨rfl, rfl, exAttr_wf⟩
+  · intro op hop
+    simp only [exTwo, List.mem_cons, List.not_mem_nil, or_false] at hop
+    rcases hop with rfl | rfl | rfl <;> trivial
 
 end Rbgp.Rib.PropsC15
 
@@ -316,7 +364,9 @@ end Rbgp.Rib.PropsC15
 #print axioms Rbgp.Rib.PropsC15.state_eq_recount
 #print axioms Rbgp.Rib.PropsC15.no_panic
 #print axioms Rbgp.Rib.PropsC15.no_underflow
-#print axioms Rbgp.Rib.PropsC15.limit_counter_ge_recount_partial
-#print axioms Rbgp.Rib.PropsC15.limit_counter_eq_recount_partial
-#print axioms Rbgp.Rib.PropsC15.limit_enforced_partial
+#print axioms Rbgp.Rib.PropsC15.limit_counter_ge_recount
+#print axioms Rbgp.Rib.PropsC15.limit_counter_eq_recount
+#print axioms Rbgp.Rib.PropsC15.limit_enforced_session
 #print axioms Rbgp.Rib.PropsC15.limit_signalled
+#print axioms Rbgp.Rib.PropsC15.sessCount_eq_recvCount
+#print axioms Rbgp.Rib.PropsC15.limit_enforced_partial
